@@ -453,6 +453,7 @@ class PEmitter:
     # functions of the decoder that are translated / modelled on their own; a call stands for the model's function
     model_fns = {}
     gob_fields = set()
+    on_demand = None      # callback translating a helper function of the same file when a call of it is met
     loop_vars = None      # inside a `loop` body: the variables that live across iterations (the reader last)
     result_fns = {}       # functions whose Result is matched on rather than propagated with `?`
 
@@ -694,6 +695,13 @@ class PEmitter:
                 v = self.fresh("v")
                 return "match %s with\n  | None => Err %s\n  | Some %s =>\n  %s\n  end" % (a, err, v, k(v, t[1], env))
             return self.expr(inner[1], env, after)
+        if inner[0] == "call" and inner[1][0] == "var" and inner[1][1] not in self.known and self.on_demand is not None \
+                and inner[2] and inner[2][0] == ("var", "reader"):
+            # a private helper of the same file that takes the reader: translated on demand, emitted in front of its caller
+            try:
+                self.on_demand(inner[1][1])
+            except Untranslatable:
+                pass          # the cases below (decode_pei, ..) or the final error apply
         if inner[0] == "call" and inner[1][0] == "var" and inner[1][1] in self.known:
             cname, ptys, rty = self.known[inner[1][1]]
             args = inner[2]
@@ -2207,9 +2215,10 @@ class PEmitter:
         return self.expr(scrut, env, on_scrut)
 
 
-def translate_parser_fn(src, defs, name, coq_name, known, aliases, extra_params=(), union=False):
+def translate_parser_fn(src, defs, name, coq_name, known, aliases, extra_params=(), union=False, on_demand=None):
     params, ret, body = find_fn_generic(src.toks, name)
     em = PEmitter(defs, known, aliases)
+    em.on_demand = on_demand
     env = {}
     binders = []
     ptys = []
@@ -2921,9 +2930,21 @@ def _gen_group(repo, status, write, fname, rel, functions, known, header, static
         key = "parser.p_" + f
         try:
             fsrc = src if f not in OTHER_FILE else Source(repo, OTHER_FILE[f])
-            text, sig = translate_parser_fn(fsrc, defs, f, "p_" + f, known, aliases, union=(f in UNION))
+            helpers = []
+            def on_demand(h, fsrc=fsrc, helpers=helpers, depth=[0]):
+                if depth[0] > 3:
+                    raise Untranslatable("helper functions nested too deeply")
+                depth[0] += 1
+                try:
+                    htext, hsig = translate_parser_fn(fsrc, defs, h, "p_" + h, known, aliases, on_demand=on_demand)
+                finally:
+                    depth[0] -= 1
+                known[h] = hsig
+                # a helper is unfolded by the bridge proofs like a join point
+                helpers.append(htext.replace(": pgen.", ": %s." % hintdb) + "#[global] Hint Unfold p_%s : %s.\n\n" % (h, hintdb))
+            text, sig = translate_parser_fn(fsrc, defs, f, "p_" + f, known, aliases, union=(f in UNION), on_demand=on_demand)
             known[f] = sig
-            body += text.replace(": pgen.", ": %s." % hintdb) + "\n"
+            body += "".join(helpers) + text.replace(": pgen.", ": %s." % hintdb) + "\n"
             status[key] = "ok"
         except Untranslatable as e:
             body += "(* p_%s: untranslatable: %s *)\n\n" % (f, str(e).replace("*)", "* )"))
